@@ -2,6 +2,18 @@
 """Generate MANIFEST.json from the table below (kept in one place so it always validates)."""
 import json
 checks = {
+ "C03": ("exploration", "bounded-exhaustive enumeration of byte, lexeme and token strings through every entry point under recover and a watchdog",
+         "Every S1 byte string, S2 lexeme sequence and S3 token string (lexically malformed tokens at every position, incl. first and after ';') goes through the lexer, the splitter and all nine Parse* functions; any panic, hang, wrongly typed error or nil node is a violation.",
+         "Inputs longer than the bounds are not explored; stack exhaustion on deep nesting is out of scope.", "6 C03"),
+ "C12": ("exploration", "bounded-exhaustive enumeration of byte/lexeme strings; partition oracle built on reference lexer R1",
+         "Every string over a 12-symbol split alphabet and every short sequence of ';'-relevant lexemes goes through SplitRawStatements; pieces, gaps and comments are checked against R1's token and comment extents.",
+         "R1 decides where tokens and comments are.", "6 C12"),
+ "C15": ("exploration", "exhaustive enumeration of all 1-2 byte strings, all Unicode scalar values and short critical-byte strings; re-lex oracle",
+         "The three quoting functions are applied to every value of the enumerated domains and the result is lexed back with the public lexer.",
+         "The public lexer is the decoder (C13/C14 decide it).", "6 C15"),
+ "C20": ("exploration", "exhaustive enumeration of short texts x all (pos,end) pairs against reference resolver R6; all errors of short token strings",
+         "ResolvePos/Position/excerpt are compared with an independent line resolver on every text over {a,LF,CR,0xC3,0xA9} up to the bound and every position pair; every error of every short token string has its message prefix and Position fields checked.",
+         "Excerpt format (NNN|  text / cursor line) is taken as given; only which lines are quoted is checked.", "6 C20"),
  "C13": ("exploration", "bounded-exhaustive enumeration of byte/lexeme strings; tiling oracle + continuation (resume-from-state) check on every string",
          "Every string up to the stated length over six lexically significant alphabets, and every short lexeme sequence, is lexed by the real Lexer and the tiling/Raw/Pos/End/eof clauses are checked on each; the continuation check extends the result to longer inputs by induction on token count.",
          "Trusts R1's definition of a complete comment; strings outside the alphabets/lengths are not explored.", "6 C13"),
